@@ -168,6 +168,13 @@ def run(ctx):
                        "frame) under the fuzz harness's 128 MiB allocation limit, checked build; non-trivial = the image "
                        "initialised (at least one call after init ran); distinct by (bytes, script)")
     lines, meta = [], []
+    # minimised past failures with the exact call sequence that exposed them: always replayed first
+    for f in sorted(glob.glob(VERIF + "/corpus/c01/*.jsonl")):
+        for l in open(f):
+            c = json.loads(l)
+            data = bytes.fromhex(c["bytes_hex"])
+            lines.append(f"run {hex_or_dash(data)} {c['script']} {ALLOC_LIMIT}")
+            meta.append(("corpus-case", data, c["script"]))
     for label, data in inputs:
         script = gen_script(rng, len(data))
         lines.append(f"run {hex_or_dash(data)} {script} {ALLOC_LIMIT}")
